@@ -859,6 +859,40 @@ func runListedDir(c *Ctx, rule string, handle *ssa.Function, dirHandlers []*ssa.
 				return any, ns
 			case *ssa.Extract:
 				return deriv(x.Tuple, seen)
+			case *ssa.UnOp:
+				// an element read back from a list of paths collected in this function (names appended in the
+				// directory loop, handed on in a second loop)
+				if ia, ok := x.X.(*ssa.IndexAddr); ok && x.Op == token.MUL {
+					any := false
+					var ns []string
+					var walkList func(l ssa.Value)
+					walkList = func(l ssa.Value) {
+						if seen[l] {
+							return
+						}
+						seen[l] = true
+						switch y := l.(type) {
+						case *ssa.Phi:
+							for _, e := range y.Edges {
+								walkList(e)
+							}
+						case *ssa.Call:
+							if calleeName(&y.Call) == "builtin.append" && len(y.Call.Args) == 2 {
+								walkList(y.Call.Args[0])
+								for _, e := range variadicElems(y.Call.Args[1]) {
+									f, n := deriv(e, seen)
+									any = any || f
+									ns = append(ns, n...)
+								}
+							}
+						case *ssa.Slice:
+							walkList(y.X)
+						}
+					}
+					walkList(ia.X)
+					return any, ns
+				}
+				return false, nil
 			case *ssa.Call:
 				any := false
 				var ns []string
